@@ -229,6 +229,17 @@ def install_move_contract(ctx, on_call=None):
                     used_index, used_displ = state['displ']
                 if not np.array_equal(before, np.asarray(atoms_pos, float)):
                     ctx.violation('move-input-modified', 'move_mol_atom changed its input array')
+                if used_index is None and used_displ is not None:
+                    # the caller gave the displacement and left the atom to the function: some atom must have moved by
+                    # exactly that vector
+                    d = np.asarray(used_displ, float)
+                    moved = [j for j in range(len(before)) if np.array_equal(np.asarray(out, float)[j], before[j] + d)]
+                    ctx.monitor('move_contract')
+                    if not moved:
+                        ctx.violation('move-wrong-displacement', 'displacement given, atom index omitted: no atom was displaced by the requested vector',
+                                      witness={'pos': before, 'displ': d})
+                    else:
+                        used_index = moved[0]
                 if used_index is None or used_displ is None:
                     ctx.count('move_contract_unobserved_draw')
                 else:
